@@ -495,7 +495,15 @@ func (hc *grpcHandlerConn) Close(err error) (retErr error) { // nolint:nonamedre
 		// instead. Envoy is the canonical implementation of the gRPC-Web protocol,
 		// so we emulate Envoy's behavior and put the trailing metadata in the HTTP
 		// headers.
-		mergeHeaders(hc.responseWriter.Header(), mergedTrailers)
+		header := hc.responseWriter.Header()
+		contentType := header.Get(headerContentType)
+		mergeHeaders(header, mergedTrailers)
+		// The trailing metadata may include the metadata of an error that was
+		// received from another server and is being passed on. What that says
+		// about the other response's body doesn't describe ours, which is empty.
+		header.Set(headerContentType, contentType)
+		header.Del("Content-Length")
+		header.Del("Content-Encoding")
 		return nil
 	}
 	if hc.web {
